@@ -72,7 +72,7 @@ void h_inc_aggregate(void) {
 #endif
         REACH("inc_aggregate API misuse"); return; }
     if (toosmall) { __CPROVER_assert(ret == 0 && g_illegal == 0 && len == alen && verif_c17_whit == 0 && c17_init_n == 0, "C17 inc_aggregate: buffer smaller than 32*(n+1) returns 0 and touches nothing");
-        if (alen == 32 * n && n > 2) REACH("inc_aggregate buffer one slot short");
+        if (alen == 32 * n && n > 1) REACH("inc_aggregate buffer one slot short");
 #ifndef C17_NBOUND
         if (big) REACH("inc_aggregate huge count");
 #endif
@@ -84,12 +84,16 @@ void h_inc_aggregate(void) {
         __CPROVER_assert(verif_c17_bad == 0 && verif_c17_fin_n == nnew && c17_init_n == 1, "C17 inc_aggregate: one running hash, one randomizer per new signature from a finalize at length 64+96(i+1), products s_i*z_i (i != 0), hash bytes as specified");
         if (wpos >= 64 && wpos < 64 + 96 * (uint64_t)n) __CPROVER_assert(verif_c17_whit, "C17 inc_aggregate: every position of r_i || pk_i || m_i, i < n, is written to the running hash");
         if (nb == 0 && nnew == 0) REACH("inc_aggregate empty");
+        #ifndef C17_NBOUND
         if (nb == 0 && nnew == 3 && gb == 40) REACH("aggregate one-shot n = 3");
+#else
+        if (oneshot && nnew == C17_NBOUND && gb == 40) REACH("aggregate one-shot n = bound");
+#endif
 #ifndef C17_NBOUND
         if (nb == 1000 && nnew == 1000000 && gb == 32 * 1000 + 31 && wpos == 64 + 96 * 1000 + 3 && alen == 32 * (NMAX + 1)) REACH("inc_aggregate 1000 + 10^6, oversized buffer");
         if (nb == 5 && nnew == 0 && gb == 159) REACH("inc_aggregate nothing new");
 #else
-        if (nb == 1 && nnew == 2 && gb == 32 + 31 && wpos == 64 + 96 + 3 && alen == 32 * (C17_NBOUND + 2) - 1) REACH("inc_aggregate 1 + 2, oversized buffer");
+        if (nb == 1 && nnew == C17_NBOUND - 1 && gb == 32 + 31 && wpos == 64 + 96 + 3 && alen == 32 * (C17_NBOUND + 2) - 1) REACH("inc_aggregate 1 + rest, oversized buffer");
         if (nb == 2 && nnew == 0 && gb == 63) REACH("inc_aggregate nothing new");
 #endif
     } else {
